@@ -58,6 +58,12 @@ func genC06(t *rapid.T) *Case {
 	if rapid.IntRange(0, 5).Draw(t, "corpusInput") == 0 {
 		in = genCorpusMutation(t)
 	}
+	if rapid.IntRange(0, 7).Draw(t, "voidThenItsName") == 0 {
+		// text that equals the name of the void element just before it (<img>img): the tag may go,
+		// the word stays
+		v := rapid.SampledFrom([]string{"img", "input", "br", "hr", "link", "meta", "area"}).Draw(t, "voidName")
+		in += "<" + v + ">" + v + rapid.SampledFrom([]string{"", " tail", "</" + v + ">" + v}).Draw(t, "voidTail")
+	}
 	via := 0
 	if rapid.IntRange(0, 3).Draw(t, "viaReader") == 0 {
 		via = 1 // through SanitizeReader with a reader that has no Len()
